@@ -667,6 +667,7 @@ mod c36 {
     #[derive(Deserialize)]
     struct StoredExp {
         ts: u64,
+        pl: u64,
     }
     #[derive(Deserialize)]
     struct Row {
@@ -682,6 +683,7 @@ mod c36 {
         #[serde(rename = "sigOk")]
         sig_ok: bool,
         ts: u64,
+        pl: u64,
         recs: Vec<Rec>,
         res: String,
         stored: BTreeMap<String, StoredExp>,
@@ -835,7 +837,7 @@ mod c36 {
         };
         let zone = |zl: &str| if zl == "other" { other.clone() } else { secrets[zl].public().to_z32() };
         // relay payload of the packet currently accepted per (key, ts)
-        let mut accepted: BTreeMap<(String, u64), Vec<u8>> = BTreeMap::new();
+        let mut accepted: BTreeMap<(String, u64, u64), Vec<u8>> = BTreeMap::new();
         for (i, s) in b.steps.iter().enumerate() {
             let recs: Vec<Rec> = s.recs.iter().map(|r| Rec { v: concrete_v(r.v, s.ts, &s.signer), ..r.clone() }).collect();
             let payload = dns_payload(&recs, &zone);
@@ -848,19 +850,19 @@ mod c36 {
                 return Err((i, "PUT status".into(), exp_status.to_string(), status.to_string()));
             }
             if s.res != "rejected" {
-                accepted.insert((s.k.clone(), s.ts), body);
+                accepted.insert((s.k.clone(), s.ts, s.pl), body);
             }
             for (x, exp) in &s.stored {
                 let z32 = secrets[x].public().to_z32();
                 let (status, got) = http(http_addr, "GET", &format!("/pkarr/{z32}"), &[]).await;
-                let exp_desc = if exp.ts == 0 { format!("{x}:404") } else { format!("{x}:ts{}", exp.ts) };
+                let exp_desc = if exp.ts == 0 { format!("{x}:404") } else { format!("{x}:ts{}:pl{}", exp.ts, exp.pl) };
                 let got_desc = if status == 404 {
                     format!("{x}:404")
                 } else if status != 200 {
                     format!("{x}:status{status}")
                 } else {
                     match accepted.iter().find(|(_, p)| **p == got) {
-                        Some(((k, ts), _)) => format!("{k}:ts{ts}"),
+                        Some(((k, ts, pl), _)) => format!("{k}:ts{ts}:pl{pl}"),
                         None => format!("{x}:unknown-bytes"),
                     }
                 };
